@@ -128,9 +128,37 @@ MissingCells(e) == CellsWith(e, {"T"}) \ DrawnCells(e)
 ExtraCells(e)   == DrawnCells(e) \ CellsWith(e, {"T", "EITHER"})
 EitherCells(e)  == CellsWith(e, {"EITHER"}) \ CellsWith(e, {"T"})
 
+(* ------------------------------ (2b) traffic lights ------------------------------ *)
+(* A light [cyc, off, active]: cycle of [d |-> duration, c |-> colour] elements (TrafficLight.tla, C17), time offset,  *)
+(* active = 0 for a light that is switched off.  What the light's own artist shows at the selected begin time step:  *)
+(* the colour of the cycle at time_begin, "inactive" for a switched-off light.  Lanelets do not depend on lights:     *)
+(* every lanelet to be drawn yields all its parts (area fill, left / right bound, direction arrow under the          *)
+(* default lanelet flags) at every time_begin, whatever the state of the light governing it.  (The colour of the      *)
+(* centre-line overlay of governed lanelets is not constrained: for a switched-off light the code follows the cycle.) *)
+LightColors  == {"red", "redYellow", "yellow", "green", "inactive"}
+TL == INSTANCE TrafficLight WITH MaxElems <- 5, MaxDur <- 3, MaxOff <- 3, Colors <- LightColors, Periods <- 1
+LightCycles  == { << [d |-> 1, c |-> "red"], [d |-> 1, c |-> "redYellow"], [d |-> 2, c |-> "green"], [d |-> 1, c |-> "yellow"],
+                     [d |-> 2, c |-> "inactive"] >>,
+                  << [d |-> 2, c |-> "inactive"], [d |-> 1, c |-> "green"] >>,
+                  << [d |-> 3, c |-> "inactive"] >>,
+                  << [d |-> 2, c |-> "green"], [d |-> 2, c |-> "red"] >> }
+LightConfigs == [cyc : LightCycles, off : {0, 2, 3}, active : {0, 1}]
+LightShown(l, t) == IF l.active = 0 THEN "inactive" ELSE TL!StateAt(l.cyc, l.off, t)
+ValidLight(l) == /\ l.active \in {0, 1} /\ l.off \in 0..20 /\ Len(l.cyc) >= 1
+                 /\ \A i \in DOMAIN l.cyc : l.cyc[i].d \in 1..20 /\ l.cyc[i].c \in LightColors
+(* default lanelet flags, lanelet without neighbours.  The centre bound is observed ("center") but NOT required: the
+   statement does not name it, and the code only draws it with unique_colors / colormap_tangent although
+   draw_center_bound defaults to True (reported as an observation, not asserted). *)
+LaneletParts == {"fill", "left", "right", "arrow"}
+(* trace side: e.lights = descriptors with id, e.t = time_begin, e.shown = [[id, colour token of the artist], ...] *)
+LightsMissing(e) == {l.id : l \in Range(e.lights)} \ {x[1] : x \in Range(e.shown)}
+LightsExtra(e)   == {x[1] : x \in Range(e.shown)} \ {l.id : l \in Range(e.lights)}
+LightsWrong(e)   == {l.id : l \in {k \in Range(e.lights) : \E x \in Range(e.shown) : x[1] = k.id /\ x[2] # LightShown(k, e.t)}}
+PartsMissing(want, parts) == {<<l, q>> : l \in want, q \in LaneletParts} \ {<<x[1], x[2]>> : x \in Range(parts)}
+
 (* =============================== (3) totality ===================================== *)
 Archetypes == {"plain", "point-mass", "custom-state", "no-orientation", "uncertain-position", "uncertain-orientation", "defaults", "interval-sets",
-               "goals", "goal-no-position", "signs-lights", "empty"}
+               "goals", "goal-no-position", "signs-lights", "lights-inactive", "light-no-cycle", "empty"}
 Windows    == {"before", "at-start", "inside", "point", "default", "after"}    \* relative to the horizons 1..4 of the archetypes
 WindowOf(w) == CASE w = "before" -> <<0, 0>> [] w = "at-start" -> <<0, 3>> [] w = "inside" -> <<2, 4>> [] w = "point" -> <<2, 2>>
                  [] w = "default" -> <<0, 200>> [] w = "after" -> <<7, 9>>
